@@ -31,6 +31,7 @@ func runC04(c *Ctx) {
 	domainPatternsIndependent(c, "DEDUP")
 	c04CacheAlias(c)
 	c04NegateWhole(c)
+	rangeVarsNotAssigned(c, "ALIAS", "component/routing/domain_matcher", nil)
 }
 
 // optimizerMethods returns the Optimize methods of every RulesOptimizer
